@@ -684,6 +684,27 @@ func genBufScenario(rng *rand.Rand, profile string, mode string) *BScenario {
 		sc.Drivers = append(sc.Drivers, append(reads, BOp{K: "slice"}))
 		return sc
 	}
+	// property-driven shape for C04: a consumer commits reads that a forced trim has meanwhile overtaken (its committed
+	// position was before the start of the buffer): the commit still is a state change the cleaner must look at
+	if profile == "reclaim" && rng.Intn(100) < 15 {
+		mx := 3 + rng.Intn(2)
+		tg := 1 + rng.Intn(mx-1)
+		sc.Cleaner = BCleaner{Kind: "fixed", Max: mx, Target: tg, CooldownUs: []int{0, 0, 200, 1000}[rng.Intn(4)]}
+		sc.Drivers, sc.NCtx = nil, 1
+		sc.Setup = []BOp{{K: "newc", C: 1}, {K: "put", N: mx}}
+		var ops []BOp
+		for i := 0; i < mx; i++ {
+			ops = append(ops, BOp{K: "get", C: 1, Ctx: 1})
+		}
+		ops = append(ops, BOp{K: "put", N: 1 + rng.Intn(2)}, BOp{K: "nop", N: rng.Intn(6)}, BOp{K: "size"}, BOp{K: "commit", C: 1})
+		sc.Drivers = append(sc.Drivers, ops)
+		if rng.Intn(2) == 0 {
+			sc.Setup = append(sc.Setup, BOp{K: "newc", C: 2})
+			sc.Drivers = append(sc.Drivers, []BOp{{K: "nop", N: rng.Intn(8)}, {K: "get", C: 2, Ctx: 1}, {K: "commit", C: 2}, {K: "close", C: 2}})
+		}
+		sc.Small = true
+		return sc
+	}
 	// property-driven shapes for reclamation (C04): the last state change is a commit while other consumers are
 	// parked in Get, or the close of the slowest consumer while others stay open
 	if profile == "reclaim" && rng.Intn(100) < 55 {
